@@ -31,6 +31,8 @@ type EntrySpec struct {
 	MaxConc      int      `json:"max_concretize"`
 	Bounds       string   `json:"bounds"`
 	What         string   `json:"what"`
+	MaxSchedPts  int      `json:"max_sched_points"`
+	HangSteps    int      `json:"hang_steps"` // exceeding this many interpreted instructions on one path is a "hang" violation
 	Native       bool     `json:"native"` // counterexamples of this entry are replayed natively
 }
 
@@ -320,6 +322,11 @@ func cmdCheck(args []string) {
 			cfg.MapOrderAll = es.MapOrder
 			cfg.AllowBlocked = es.AllowBlocked
 			cfg.HashTransparent = es.HashTransparent
+			cfg.MaxSchedPoints = es.MaxSchedPts
+			if es.HangSteps > 0 {
+				cfg.MaxSteps = es.HangSteps
+				cfg.HangIsViolation = true
+			}
 			if j.mustFail {
 				cfg.StopOnViolation = true
 			}
